@@ -208,9 +208,12 @@ static void uncanary(Region* reg, uint8_t* arena, size_t alen)
 static Region* cur_reg; static int cur_ro;
 static long src_shift;      /* <off> = offset + 100 * shift: source objects (payloads, paths, values) end <shift> bytes before the guard
                                page, so that the alignment of the source can be chosen independently of its length (C15) */
+static int src_far; static uint8_t* dest_hint; static Region regF;
+void ext_dest_hint(uint8_t* p) { dest_hint = p; }   /* where the call will copy the source object to (for "far" placement) */
 uint8_t* ext_place(char place, long off, const uint8_t* bytes, size_t n)
 {
     uint8_t* a;
+    src_far = (off >= 1000); off %= 1000;            /* <off> + 1000: source object exactly 2^32 bytes above its destination */
     src_shift = off / 100; off %= 100;
     if (place == 'S') { cur_reg = &regS; a = regS.data + off; }
     else { cur_reg = &regE; a = regE.data + DATA_PAGES * PAGE - n; }
@@ -221,6 +224,15 @@ uint8_t* ext_place(char place, long off, const uint8_t* bytes, size_t n)
 static size_t src_align = 1;      /* typed source arrays (uint16_t* ...) keep the alignment their element type requires */
 uint8_t* ext_source(const uint8_t* bytes, size_t n)   /* read-only source object, end flush against a guard page */
 {
+    if (src_far && dest_hint && cur_reg == &regS) {
+        /* a second region exactly 4 GiB above the S region: pointer differences between the two do not fit 32 bits */
+        if (!regF.map) {
+            void* want = regS.map + (1ULL << 32);
+            void* got = mmap(want, (DATA_PAGES + 2) * PAGE, PROT_READ | PROT_WRITE, MAP_PRIVATE | MAP_ANONYMOUS | MAP_FIXED_NOREPLACE, -1, 0);
+            if (got == want) { regF.map = got; regF.data = regF.map + PAGE; }
+        }
+        if (regF.map) { uint8_t* f = dest_hint + (1ULL << 32); memcpy(f, bytes, n); return f; }
+    }
     uint8_t* a = regP.data + DATA_PAGES * PAGE - n - (src_shift - src_shift % (long)src_align);
     mprotect(regP.data, DATA_PAGES * PAGE, PROT_READ | PROT_WRITE);
     memcpy(a, bytes, n);
